@@ -171,7 +171,7 @@ Fixpoint build (attrs : nty) (h : list (str * nvalue)) : option (list nvalue) :=
    AssertInstance.  Object type: the entries that name a constructor attribute in LAYOUT order (el: `cattrs`), merged into the
    given hash so that the coerced entries win, then newInstance: the constructor of the type takes the merged hash by name
    (unknown key / missing required attribute: rejected).  Anything else is handed to newInstance of a scalar type: outside the
-   model (None) — never reached for a value that the named dispatcher admits (Properties/C17.v C17_nested_admitted_coerces).
+   model (None) — never reached for a form that denotes an instance (`repb` below; Properties/C17.v C17_nested_every_form_coerces).
      centry  the coerced value of the Struct entry (k, v): a key that names no member is left as it is
      cattrs  el *)
 Fixpoint csw (t : nty) (v : nvalue) {struct t} : option nvalue :=
@@ -308,6 +308,84 @@ with to_init_vals (t : nty) (vals : list nvalue) {struct t} : list (str * nvalue
   match t with
   | NCons k _ vt rest => match vals with v :: r => (k, to_init vt v) :: to_init_vals rest r | [] => [] end
   | _ => []
+  end.
+
+(* the named-argument hash of an object given by instances: {name_i => value_i} in layout order (what the harness hands to
+   px.New in the form `named`; `to_init_vals` is the same hash with every value in its init-hash form) *)
+Fixpoint zipv (t : nty) (vals : list nvalue) : list (str * nvalue) :=
+  match t with
+  | NCons k _ _ rest => match vals with v :: r => (k, v) :: zipv rest r | [] => [] end
+  | _ => []
+  end.
+
+(* "x denotes the instance v of type t": the forms in which the harness hands an object value to px.New (named-init-hash,
+   named-mixed, an init-hash that leaves attributes with a declared value out) as a relation, independent of coerceTo:
+   x is v itself, or agrees with v element by element / entry by entry, where an object NVObj n vals may be given as a Hash h
+   all of whose keys are attribute names, holding under name_i a denotation of vals_i, or nothing when vals_i is the declared
+   value.  `to_init t v` and `ninit_hash` are two such forms (the extremes: everything / as little as possible as a Hash). *)
+Fixpoint all2 {A B} (f : A -> B -> bool) (l1 : list A) (l2 : list B) : bool :=
+  match l1, l2 with
+  | [], [] => true
+  | a :: r1, b :: r2 => f a b && all2 f r1 r2
+  | _, _ => false
+  end.
+
+Fixpoint repb (t : nty) (x v : nvalue) {struct t} : bool :=
+  nvalue_eqb x v ||
+  match t with
+  | NOpt t' => match x with NVUndef => false | _ => repb t' x v end
+  | NArr t' => match x, v with NVArr lx, NVArr lv => all2 (repb t') lx lv | _, _ => false end
+  | NHashV t' =>
+    match x, v with
+    | NVHash hx, NVHash hv => all2 (fun a b => str_eqb (fst a) (fst b) && repb t' (snd a) (snd b)) hx hv
+    | _, _ => false
+    end
+  | NStruct ms =>
+    match x, v with
+    | NVHash hx, NVHash hv => all2 (fun a b => str_eqb (fst a) (fst b) && repb_entry ms (fst a) (snd a) (snd b)) hx hv
+    | _, _ => false
+    end
+  | NObj n attrs =>
+    match x, v with
+    | NVHash h, NVObj m vals => str_eqb n m && keys_known attrs h && repb_vals attrs h vals
+    | _, _ => false
+    end
+  | _ => false
+  end
+with repb_entry (t : nty) (k : str) (x v : nvalue) {struct t} : bool :=
+  match t with
+  | NCons k' _ vt rest => if str_eqb k' k then repb vt x v else repb_entry rest k x v
+  | _ => nvalue_eqb x v
+  end
+with repb_vals (t : nty) (h : list (str * nvalue)) (vals : list nvalue) {struct t} : bool :=
+  match t with
+  | NCons k d vt rest =>
+    match vals with
+    | v :: r =>
+      match nhget h k with
+      | Some x => repb vt x v
+      | None => match d with Some dv => nvalue_eqb dv v | None => false end
+      end && repb_vals rest h r
+    | [] => false
+    end
+  | _ => match vals with [] => true | _ => false end
+  end.
+
+(* the same for an argument TUPLE of the positional creator: argument i is value i - in any denoting form when the type of
+   attribute i IS an Object type (the positional signature has typeAndInit there), as it is otherwise -, the attributes that
+   are not given hold their declared values *)
+Fixpoint posrep (t : nty) (args vals : list nvalue) : bool :=
+  match t with
+  | NCons _ d vt rest =>
+    match vals with
+    | v :: vr =>
+      match args with
+      | a :: ar => (if is_obj_ty vt then repb vt a v else nvalue_eqb a v) && posrep rest ar vr
+      | [] => match d with Some dv => nvalue_eqb dv v | None => false end && posrep rest [] vr
+      end
+    | [] => false
+    end
+  | _ => match args, vals with [], [] => true | _, _ => false end
   end.
 
 (* well-formed types: member / attribute names are distinct, a declared value is an instance of the attribute's type (chk: the
